@@ -22,7 +22,8 @@ PROPS = {
     "C06": dict(mc_q=["MC_guards_q", "MC_payload_q"], mc_t=["MC_guards", "MC_payload"], wit=[("MC_guards_q", "W_GuardSeesAccepted")]),
     "C07": dict(mc_q=["MC_payload_q"], mc_t=["MC_payload"], wit=[("MC_payload_q", "W_TaskPayloadPending")]),
     "C08": dict(mc_q=["MC_plan_q", "MC_planman"], mc_t=["MC_plan", "MC_planman"], wit=[("MC_plan_q", "W_TaskFired"), ("MC_plan_q", "W_Origin0Ahead")]),
-    "C09": dict(mc_q=["MC_plan_q", "MC_planman"], mc_t=["MC_plan", "MC_planman"], wit=[("MC_plan_q", "W_PlanFailed"), ("MC_plan_q", "W_PlanSucceeded")]),
+    "C09": dict(mc_q=["MC_plan_q", "MC_planman", "MC_injplan"], mc_t=["MC_plan", "MC_planman", "MC_injplan"],
+                wit=[("MC_plan_q", "W_PlanFailed"), ("MC_plan_q", "W_PlanSucceeded"), ("MC_injplan", "W_FailForAnotherState")]),
     "C10": dict(mc_q=["MC_plan_q", "MC_planedit"], mc_t=["MC_plan", "MC_planedit"], wit=[("MC_plan_q", "W_PlanFull")]),
     "C13": dict(mc_q=[], mc_t=[], wit=[], pool=False),
     "C20": dict(mc_q=[], mc_t=[], wit=[], pool=False),
@@ -30,7 +31,7 @@ PROPS = {
     "C12": dict(mc_q=["MC_serial", "MC_serial3"], mc_t=["MC_serial", "MC_serial3"], wit=[("MC_serial", "W_LoadDeactivates")]),
     "C14": dict(mc_q=["MC_guards_q"], mc_t=["MC_guards"], wit=[]),
     "C19": dict(mc_q=["MC_guards_q"], mc_t=["MC_guards"], wit=[], pool=False),
-    "C15": dict(mc_q=["MC_inj"], mc_t=["MC_inj"], wit=[("MC_inj", "W_InjectedExit")]),
+    "C15": dict(mc_q=["MC_inj"], mc_t=["MC_inj", "MC_injplan"], wit=[("MC_inj", "W_InjectedExit")]),
     "C16": dict(mc_q=["MC_log", "MC_logv"], mc_t=["MC_log", "MC_logv"], wit=[("MC_log", "W_LoggedCancel")]),
     "C17": dict(mc_q=["MC_guards_q"], mc_t=["MC_guards"], wit=[]),
 }
